@@ -45,6 +45,8 @@ type Stmt struct {
 	Args   []*Expr   `json:"args"`
 	// layout extras (C18): lines of material inserted before this statement
 	Pre []string `json:"pre"`
+	// "declblock": 令： followed by one indented line per pair
+	Pairs []*Stmt `json:"pairs"`
 }
 
 type Catch struct {
@@ -293,6 +295,19 @@ func (r *R) stmt(s *Stmt, p []int, ind int) {
 			kw = "恒为"
 		}
 		r.Map[key] = r.emit(ind, "令"+strings.Join(ns, "、")+kw+E(s.E))
+	case "declblock":
+		r.Map[key] = r.emit(ind, "令：")
+		for _, pr := range s.Pairs {
+			var ns []string
+			for _, n := range pr.Names {
+				ns = append(ns, Name(n))
+			}
+			kw := " = "
+			if pr.Const {
+				kw = "恒为"
+			}
+			r.emit(ind+1, strings.Join(ns, "、")+kw+E(pr.E))
+		}
 	case "expr":
 		r.Map[key] = r.emit(ind, E(s.E))
 	case "if":
